@@ -269,7 +269,7 @@ def gen_cases(ctx):
     for e in (rng.sample(sh, 10) if quick else sh):
         add("ct", "PStats", "read:1", e, kind=rng.choice(["v4", "v6"]), ct_mode="relay", reads=data[:1])
         add("ct", None, "", e, kind=rng.choice(["v4", "v6"]), ct_mode="fail", wrap_err=e)
-        c = add("ct", "PLibPlain", "", e, kind=rng.choice(["v4", "v6"]), ct_mode="geo", geo_after=2)
+        c = add("ct", "PLibPlain", "", e, kind=rng.choice(["v4", "v6"]), ct_mode="geo", geo_after=1)
         c["geo"] = {"cc": e}
     for fam in ("v4", "v6"):
         add("ct", None, "", leaf("text"), kind=fam, ct_mode="relay", reads=data, log_ip=False)
